@@ -92,6 +92,20 @@ pub fn battery<T: Subject>(v: &T, model: &Bits, strength: Strength, what: &str) 
     if hash_stream(v) != hash_stream(&fresh) {
         return Err(viol(what, "hash-fresh", format!("hash input differs from a fresh vector with identical bits; raw storage {} vs fresh {}", v.raw(), fresh.raw())));
     }
+    // --- the vector used as the right operand of a same-type operator on a fresh, longer vector
+    //     ("every subsequent operation gives the same result as on a fresh vector"): same-type
+    //     operators read the operand's storage words directly, including words above `len`
+    {
+        let l = fixed_cap(T::TID).unwrap_or(n + 67);
+        let (o, a) = v.rhs_probe(l);
+        let e = model.zext(l);
+        for (r, name) in [(&o, "fresh|=self"), (&a, "fresh+=self")] {
+            let rb = read_bits(r);
+            if rb != e {
+                return Err(viol(what, name, format!("a fresh all-zero {}-bit vector combined with this vector gives {}, model predicts {}; raw storage of the operand {}", l, crate::spec::short(&rb), crate::spec::short(&e), v.raw())));
+            }
+        }
+    }
     if strength == Strength::Light {
         return Ok(());
     }
